@@ -163,6 +163,12 @@ func (r *Run) Unproven(what, replay string) {
 	}
 }
 
+// Breadcrumb records the case about to run, so that a crash of the whole process (a panic in a
+// goroutine of the code under test that nothing recovers) can be reported with its input.
+func (r *Run) Breadcrumb(s string) {
+	os.WriteFile(filepath.Join(verifRoot, "work", "replay", r.Prop+".current"), []byte(s), 0o644)
+}
+
 func (r *Run) HasViolation() bool { r.mu.Lock(); defer r.mu.Unlock(); return len(r.violations) > 0 }
 
 type auditInfo struct {
